@@ -744,7 +744,13 @@ impl<'a> FieldParser<'a> {
         let mut found = false;
         for f in self.decl.fields() {
             if found {
-                match self.schema.field_size(f.key) {
+                // A padded array occupies its padded size, not the size of
+                // its elements.
+                let size = match self.schema.padded_size(f.key) {
+                    Some(bits) => analyzer::Size::Static(bits),
+                    None => self.schema.field_size(f.key),
+                };
+                match size {
                     analyzer::Size::Static(bits) => trailing_size += bits,
                     _ => panic!(
                         "Multiple unknown size fields in {}",
